@@ -5,8 +5,12 @@ PATCH=$1; shift
 cd /verif
 git -C /repo apply --check "$PATCH" || { echo "patch does not apply"; exit 2; }
 git -C /repo apply "$PATCH"
+mkdir -p /verif/build/seed_evidence
 for c in "$@"; do
+  cp /verif/evidence/$c.json /verif/build/seed_evidence/$c.clean.json 2>/dev/null
   out=$(./check $c 2>&1); rc=$?
+  cp /verif/evidence/$c.json /verif/build/seed_evidence/$c.seeded.json 2>/dev/null
+  cp /verif/build/seed_evidence/$c.clean.json /verif/evidence/$c.json 2>/dev/null   # the tracked evidence describes the unchanged tree
   echo "== $c exit=$rc"
   echo "$out" | grep -E "VIOLATION|KNOWN-FINDING|quick:" | cut -c1-300
 done
